@@ -18,6 +18,10 @@
  * of the source tree.
  */
 #include "proto.h"
+
+#include <utility>
+#include <vector>
+
 #include <tbox/base/json.hpp>
 #include <tbox/base/assert.h>
 #include <tbox/util/json.h>
@@ -140,8 +144,25 @@ void Proto::onRecvJson(const Json &js)
         }
 
     } else if (js.is_array()) {
-        for (auto &js_item : js) {
-            onRecvJson(js_item);
+        //! 按顺序遍历（可能多层嵌套的）数组，对其中的每个对象进行处理。
+        //! 注意：不能对嵌套的数组进行递归。数据来自对端，形如 [[[[...]]]] 的
+        //! 深层嵌套会耗尽调用栈
+        std::vector<std::pair<Json::const_iterator, Json::const_iterator>> todo;
+        todo.emplace_back(js.cbegin(), js.cend());
+        while (!todo.empty()) {
+            auto &range = todo.back();
+            if (range.first == range.second) {
+                todo.pop_back();
+                continue;
+            }
+
+            const Json &js_item = *range.first;
+            ++range.first;
+
+            if (js_item.is_object())
+                onRecvJson(js_item);
+            else if (js_item.is_array())
+                todo.emplace_back(js_item.cbegin(), js_item.cend());
         }
     }
 }
